@@ -12,6 +12,7 @@ HARNESSES = [
     {"fn": "h_consider", "cases": ["k:0", "k:1", "k:2", "k:3"] + LARGE, "quick_cases": ["k:0", "k:2", LARGE[0]],
      "timeout": {"quick": 90, "thorough": 600}},
     {"fn": "h_lookup", "cases": [""], "timeout": {"quick": 60, "thorough": 300}},
+    {"fn": "h_cli_sev", "cases": ["%s:%d" % (m, t) for m in ("list", "count", "all") for t in (1, 2)], "quick_cases": ["list:2", "count:1"], "timeout": {"quick": 90, "thorough": 300}},
     {"fn": "h_lookup_cli", "cases": ["first:d1", "second:d2"], "quick_cases": ["first:d1"], "timeout": {"quick": 60, "thorough": 300}},
     {"fn": "h_mapping", "cases": ["list:sw", "list:sev", "count:sw6", "all:sw6", "count:sev"], "quick_cases": ["list:sev", "all:sw6"],
      "timeout": {"quick": 90, "thorough": 300}},
@@ -157,3 +158,39 @@ def h_lookup_cli() -> bool:
     # the same sentence through the real command line (--bmc-id N, hidden / non-serviceable log, N includes 0)
     from harness import C10_lookup
     return C10_lookup.bmc_body()
+
+
+def h_cli_sev() -> bool:
+    """
+    post: _
+    """
+    # -S <groups> through the real command line over a directory: every log of a chosen group is selected, whatever
+    # its position in the directory and whatever was examined before it
+    from vlib.stubs import World, Namespace, ARG_DEFAULTS, run_main
+    from vlib import pelbuild as pb
+    mode, two = CASE.split(":")
+    two = two == "2"
+    sevs = [sym_int("sev0", 0, 2), 1, sym_int("sev2", 0, 2)]       # 0 -> 0x10 Recovered, 1 -> 0x40 Unrecoverable, 2 -> 0x61 Diagnostic
+    code = lambda s: sym_ite(s == 0, 0x10, sym_ite(s == 1, 0x40, 0x61))
+    rev = bool(sym_bool("reverse"))
+    # hidden logs: selected only through their severity group
+    files = [("f%d_5000000%d" % (i, i + 1), pb.PEL(pb.SRC(), ph=dict(eid=0x50000001 + i), uh=dict(sev=code(sevs[i]), flags=0x6800)))
+             for i in range(3)]
+    names = ["Unrecoverable", "Recovered"] if two else ["Unrecoverable"]
+    opt = dict(severities=names, reverse=rev, skip_plugins=True)
+    opt[{"list": "list", "count": "show_pel_count", "all": "all"}[mode]] = True
+    w = World(files=files)
+    status = run_main(peltool, w, Namespace(**dict(ARG_DEFAULTS, path="/pels", **opt)))
+    want = [i for i in range(3) if bool(sym_any([sevs[i] == 1, sym_all([two, sevs[i] == 0])]))]
+    want_eids = ["0x5000000%d" % (i + 1) for i in want]
+    if rev and mode != "count":
+        want_eids.reverse()
+    outs = w.stdout()
+    conds = [status == 0]
+    if mode == "count":
+        conds.append(outs == ['{\n    "Number of PELs found": %d\n}' % len(want)])
+    elif mode == "list":
+        conds.append(len(outs) == 1 and hasattr(outs[0], "obj") and list(outs[0].obj.keys()) == want_eids)
+    else:
+        conds.append([o.obj["Private Header"]["Entry Id"] for o in outs if hasattr(o, "obj")] == want_eids)
+    return verdict(sym_all(conds), obs={"stdout": [str(o)[:50] for o in outs], "want": want_eids})
